@@ -128,6 +128,9 @@ def ev(expr, env):
     if op == "item":
         v = env[expr[1]]
         return v[expr[2]]
+    if op == "slice":
+        v = env[expr[1]]
+        return v[expr[2]:expr[3]]
     a = [ev(x, env) for x in expr[1:]]
     if any(isinstance(x, list) for x in a) and not any(hasattr(x, "variables") for x in a):
         # direct construction with array values: element-wise, as numpy does for the built variables
@@ -194,6 +197,8 @@ def mk_waveform(inp, w):
         return CustomWaveform([val(inp, x) for x in w[1]])
     if t == "blackman":
         return BlackmanWaveform(val(inp, w[1]), val(inp, w[2]))
+    if t == "blackman_max":
+        return BlackmanWaveform.from_max_val(val(inp, w[1]), val(inp, w[2]))
     if t == "interp":
         from pulser.waveforms import InterpolatedWaveform
 
